@@ -1194,6 +1194,7 @@ def c09e(F, R):
 
 
 @rule("C09", "C09.c.index-bases", floor=4)
+@rule("C18", "C18.n.index-bases", floor=4)
 def c09c(F, R):
     """compact output is 1-based in line and columns, pretty output indexes the file 0-based and prints line+1, JSON is 0-based throughout"""
     acc = lambda f: sorted(n["name"] for n in walk(f["hir"]["value"], pats=False) if n.get("k") == "MethodCall" and re.match(r"(zero|one)_idx_|raw_index", n["name"]))
@@ -1231,6 +1232,25 @@ def c09c(F, R):
         R.ok("pretty-line+1", detail="format_region prints line + 1")
     else:
         R.bad("pretty-line+1", "format_region no longer converts the 0-based line to 1-based for display", fg["sp"])
+    # the accessors mean what their names say: zero_idx_x is the stored x, one_idx_x is x + 1
+    from .facts import linform, lin_eq, LinUnx
+    POS_ = "riscv_analysis::parser::position::Position"
+    inh = inherent_methods_of(F, POS_)
+    for nm, want in (("zero_idx_line", {"line": 1}), ("one_idx_line", {"line": 1, "": 1}), ("zero_idx_column", {"column": 1}), ("one_idx_column", {"column": 1, "": 1}), ("raw_index", {"raw_index": 1})):
+        pth = inh.get(nm)
+        if not pth or "hir" not in F.fns.get(pth, {}):
+            R.bad(f"accessor|{nm}|missing", f"Position::{nm} not found", None)
+            continue
+        g_ = F.fn(pth)
+        try:
+            got = linform(g_["hir"]["value"])
+        except LinUnx as ex:
+            R.bad(f"accessor|{nm}|unextractable", f"UNEXTRACTABLE: Position::{nm} ({ex})", g_["sp"])
+            continue
+        if lin_eq(got, want):
+            R.ok(f"accessor|{nm}", detail=f"Position::{nm}() = {' + '.join((k or str(v)) for k, v in want.items())}", where=g_["sp"])
+        else:
+            R.bad(f"accessor|{nm}", f"Position::{nm}() computes {got}: every output that names its index base through this accessor (compact lines and columns, `Range` in messages) is off by one against the JSON and editor outputs", g_["sp"])
     # JSON
     pj = None
     for i in F.impls:
@@ -1899,6 +1919,50 @@ def c18m(F, R):
             R.ok("dump|debug", detail="--debug prints the graph", where=loc(dbg[0]))
         else:
             R.bad("dump|debug", "`--debug` no longer prints the graph", loc(dbg[0]))
+
+@rule("C18", "C18.o.marker-spans-the-reported-columns", floor=1)
+def c18o(F, R):
+    """the marker under a source excerpt is as long as the reported range: ranges end ON their last character, so the run of `^` has `end - start + 1` characters. Read off `format_region` as a linear form in its `start`/`end` parameters"""
+    from .facts import linform, lin_eq, LinUnx, local_inits
+    fg = fn_by_suffix(F, "PrettyPrint::format_region")
+    body = fg["hir"]["value"]
+    params = [p_.get("name") for p_ in fg["hir"]["params"]]
+    reps = [m for m in walk(body, pats=False) if m.get("k") == "MethodCall" and m["name"] == "repeat" and lit_value(m["recv"]) == "^"]
+    if len(reps) != 1 or len(params) < 4:
+        R.bad("shape", "UNEXTRACTABLE: no single `\"^\".repeat(..)` in PrettyPrint::format_region", fg["sp"])
+        return
+    start_p, end_p = params[2], params[3]
+    # follow `let end = end + 1;` style shadowing in statement order: an initialiser is read in the bindings before it
+    def subst(lf, env):
+        out = {"": 0}
+        for n_, c_ in lf.items():
+            if n_ and n_ in env:
+                for k2, c2 in env[n_].items():
+                    out[k2] = out.get(k2, 0) + c_ * c2
+            else:
+                out[n_] = out.get(n_, 0) + c_
+        return out
+    env = {}
+    top = peel(body)
+    for st in top.get("stmts", []):
+        if any(y is reps[0] for y in walk(st, pats=False)):
+            break
+        if st.get("k") == "Let" and st["pat"].get("k") == "PBinding" and st.get("init") is not None:
+            try:
+                env[st["pat"]["name"]] = subst(linform(st["init"], None), env)
+            except LinUnx:
+                env.pop(st["pat"]["name"], None)
+                env[st["pat"]["name"]] = {"?" + st["pat"]["name"]: 1}
+    try:
+        got = subst(linform(reps[0]["args"][0], None), env)
+    except LinUnx as ex:
+        R.bad("unextractable", f"UNEXTRACTABLE: marker length ({ex})", loc(reps[0]))
+        return
+    want = {end_p: 1, start_p: -1, "": 1}
+    if lin_eq(got, want):
+        R.ok("marker-length", detail=f"the marker has {end_p} - {start_p} + 1 characters", where=loc(reps[0]))
+    else:
+        R.bad("marker-length", f"the marker under the excerpt has {got} characters; the reported range covers {end_p} - {start_p} + 1: the last character of the register / instruction the message is about is not marked (or one more is)", loc(reps[0]))
 
 
 @rule("C18", "C18.f.excerpt-gutter-matches-printed-number", floor=1)
